@@ -9,6 +9,8 @@ for f in sorted(glob.glob("/tmp/wt/confirm/*-m8.json")):
     if not ok:
         print("NOT CONFIRMED", P, r); continue
     src = f"/tmp/wt/{P}/_out/m8"
+    if not os.path.exists(os.path.join(src, "patch.diff")):
+        continue  # already stored and its scratch worktree removed
     patch = open(os.path.join(src, "patch.diff")).read()
     existing = [d for d in glob.glob(f"/verif/seeded/{P}-m*") if os.path.exists(d + "/patch.diff") and open(d + "/patch.diff").read() == patch]
     if existing:
